@@ -133,6 +133,7 @@ func (s *server) HandleUpgrade(ctx *types.HttpContext) {
 			server_log.Debug("websocket error before upgrade: %s", err.Error())
 		} else {
 			conn.SetReadLimit(s.Opts().MaxHttpBufferSize())
+			wsc.MaxPayload = s.Opts().MaxHttpBufferSize()
 			wsc.Conn = conn
 			s.onWebSocket(ctx, wsc)
 		}
